@@ -35,8 +35,8 @@ pub fn c10_native<G: AffineRepr>(case: &IppCase, seed: u64, model: HashMap<Strin
     let Hs = bp.share(0).verif_H(n);
     let Q: G = G::Group::rand(&mut rng).into_affine();
     let mut vals = PlainVals::<G::ScalarField>::new(model, seed);
-    let gf: Vec<G::ScalarField> = if case.g_factors == "unit" { vec![G::ScalarField::one(); n] } else { (0..n).map(|_| vals.fresh("gf")).collect() };
-    let hf: Vec<G::ScalarField> = if case.h_factors == "unit" { vec![G::ScalarField::one(); n] } else { (0..n).map(|_| vals.fresh("hf")).collect() };
+    let gf: Vec<G::ScalarField> = crate::scen_c10::factor_vec(&case.g_factors, n, &mut vals, "gf");
+    let hf: Vec<G::ScalarField> = crate::scen_c10::factor_vec(&case.h_factors, n, &mut vals, "hf");
     let a = pat_vec(&case.a_pat, n, &mut vals, "a");
     let b = pat_vec(&case.b_pat, n, &mut vals, "b");
     let c: G::ScalarField = a.iter().zip(b.iter()).map(|(x, y)| *x * *y).sum();
@@ -98,6 +98,49 @@ pub fn c10_native<G: AffineRepr>(case: &IppCase, seed: u64, model: HashMap<Strin
         }
         let mut vt = Transcript::new(b"ipp-verif");
         out.push((format!("claimed length {} with {} rounds rejected", bad, case.k), proof.verif_verification_scalars(bad, &mut vt).is_err()));
+    }
+    // one-sided surplus / missing entries in the round lists: an error, never a panic
+    {
+        let extra: G = G::Group::rand(&mut rng).into_affine();
+        for (what, l2, r2) in [
+            ("a surplus entry in L only", { let mut l = L.clone(); l.push(extra); l }, R.clone()),
+            ("a surplus entry in R only", L.clone(), { let mut r = R.clone(); r.push(extra); r }),
+            ("two surplus entries in R only", L.clone(), { let mut r = R.clone(); r.push(extra); r.push(extra); r }),
+            ("the last entry of R missing", L.clone(), { let mut r = R.clone(); r.pop(); r }),
+            ("the last entry of L missing", { let mut l = L.clone(); l.pop(); l }, R.clone()),
+        ] {
+            if l2.len() == r2.len() {
+                continue;
+            }
+            let t = InnerProductProof::verif_from_parts(l2, r2, pa, pb);
+            let res = std::panic::catch_unwind(std::panic::AssertUnwindSafe(|| {
+                let mut vt = Transcript::new(b"ipp-verif");
+                let a = t.verify(n, &mut vt, gf.iter(), hf.iter(), &P, &Q, &Gs, &Hs).is_err();
+                let mut vt = Transcript::new(b"ipp-verif");
+                a && t.verif_verification_scalars(n, &mut vt).is_err()
+            }));
+            out.push((format!("{}: rejected with an error value (no panic)", what), matches!(res, Ok(true))));
+        }
+    }
+    // an altered scaling factor changes the verdict of the honest proof
+    if !degenerate && case.mode != "degenerate" {
+        let d = G::ScalarField::from(5u64);
+        for pos in [0usize, n / 2, n - 1] {
+            let mut g2 = gf.clone();
+            g2[pos] += d;
+            let mut h2 = hf.clone();
+            h2[pos] += d;
+            let a_nz = !a[pos].is_zero();
+            let b_nz = !b[pos].is_zero();
+            if a_nz {
+                let mut vt = Transcript::new(b"ipp-verif");
+                out.push((format!("G factor {} altered: rejected", pos), proof.verify(n, &mut vt, g2.iter(), hf.iter(), &P, &Q, &Gs, &Hs).is_err()));
+            }
+            if b_nz {
+                let mut vt = Transcript::new(b"ipp-verif");
+                out.push((format!("H factor {} altered: rejected", pos), proof.verify(n, &mut vt, gf.iter(), h2.iter(), &P, &Q, &Gs, &Hs).is_err()));
+            }
+        }
     }
     // a forged last round point that would balance a wrong product if the round challenge did not depend on R
     if !degenerate && case.mode != "degenerate" && case.k >= 1 && us.len() == case.k {
